@@ -179,13 +179,6 @@ impl Operation {
     }
 //@end
 }
-/// the operations from the last undo point on (all of them when there is none)
-pub open spec fn undo_span(u: Seq<Operation>, r: Seq<Operation>) -> bool {
-    exists|k: int| 0 <= k <= u.len() && r =~= u.skip(k)
-        && (forall|j: int| k < j < u.len() ==> !(#[trigger] u[j] is UndoPoint))
-        && (k > 0 || u.len() == 0 || u[0] is UndoPoint || forall|j: int| 0 <= j < u.len() ==> !(#[trigger] u[j] is UndoPoint))
-        && (k > 0 ==> u[k] is UndoPoint)
-}
 //@extract src/taskdb/undo.rs :: fn get_undo_operations | R20=Operation
 pub fn get_undo_operations(txn: &mut dyn StorageTxn) -> (r: Result<Operations>)
     requires old(txn).inv(),
